@@ -7,6 +7,7 @@
    PROVED, for all states, parameters and ALL schedules:
      C10_thread_programs_refine_sequential_model   a program run alone = Tower.step
      C10_no_missed_breach                          add || block with the dispute: accepted => tracker, or row gone, or -27
+     C10_guard_spanning_lookup_and_store_is_necessary   with the cache guard dropped before the store the breach is missed
      C10_tables_are_statement_sequences, C10_no_orphan_records   any number of threads: FK integrity always
      C10_lock_protects_data, C10_slot_rmw_atomic, C10_data_stable_while_locked
                                                    any number of threads: while a thread holds `users`
@@ -60,6 +61,16 @@ Theorem C10_no_missed_breach le sc t0 u loc b delay sig hash txs h sched tf r :
   | _ => True
   end.
 Proof. intros Hin Hc. exact (accepted_then_watched_or_gone le sc t0 u loc b txs Hin hash h Hc delay sig sched tf r). Qed.
+
+(* The guard is necessary: the same request with the locator-cache guard dropped between the look-up and the
+   store (everything else unchanged) leaves the appointment stored and unwatched although its dispute is
+   in the processed block and in the cache. *)
+Theorem C10_guard_spanning_lookup_and_store_is_necessary :
+  let r := run_sched w_reg [add_short [] (Some 1) 7 w_blob 20 1; w_connect_dispute] w_short_guard in
+  snd r = [Some (TOut (OAddRes (AddOk 120 1 9 520))); Some (TOut OBlockRes)] /\
+  map a_loc (db_apps (fst r)) = [7] /\ db_trks (fst r) = [] /\
+  ti_get (w_cache (fst r)) 7 = Some 7.
+Proof. exact short_guard_misses_the_breach. Qed.
 
 (* the second thread above IS the thread program of the block event *)
 Example C10_block_thread_is_prog_of_op le sc t0 hash txs :
@@ -246,6 +257,7 @@ Proof. exact add_and_block_stamps_of_neither_order. Qed.
 
 Print Assumptions C10_thread_programs_refine_sequential_model.
 Print Assumptions C10_no_missed_breach.
+Print Assumptions C10_guard_spanning_lookup_and_store_is_necessary.
 Print Assumptions C10_tables_are_statement_sequences.
 Print Assumptions C10_no_orphan_records.
 Print Assumptions C10_lock_protects_data.
